@@ -40,11 +40,15 @@ def _check_graph(nodes, anc, shuffle_seed=None):
 
     class V:   # minimal variable objects: the constructor only stores them and reads their type
         pass
+
+    class W(V):   # a second type, so that the per-type listings of the graph are proper sub-listings
+        pass
     ref = _reference(nodes, anc)
     items = list(nodes)
     if shuffle_seed is not None:
         random.Random(shuffle_seed).shuffle(items)
-    variables = {n: V() for n in items}
+    type_of = {n: (W if (sum(map(ord, n)) + len(anc[n])) % 2 else V) for n in nodes}
+    variables = {n: type_of[n]() for n in items}
     direct = {n: frozenset(anc[n]) for n in items}
     import signal
 
@@ -87,6 +91,14 @@ def _check_graph(nodes, anc, shuffle_seed=None):
             return f"sorted_ancestors[{n}] = {an}, transitive dependencies are {sorted(want_an)}"
         if [pos[c] for c in ch] != sorted(pos[c] for c in ch) or [pos[c] for c in an] != sorted(pos[c] for c in an):
             return f"children / ancestors of {n} not in the global order"
+    # the per-type listings the graph offers (`sorted_variables_by_type`) are sub-listings of the same order
+    by_type = getattr(dag, "sorted_variables_by_type", None)
+    if by_type is not None:
+        for t in (V, W):
+            want = [n for n in order if type_of[n] is t]
+            got = list(by_type.get(t, {}))
+            if got != want:
+                return f"variables of one type are listed as {got}, the global order gives {want}"
     return ("order", tuple(order))
 
 
